@@ -782,16 +782,14 @@ CONFIG = {
                    "records, the querier's known_iff and the written-TTL bounds (no underflow under the half-life guard) are Lean "
                    "theorems for all records and caches; the model is compared with suppressed_by_answer / suppressed_by / "
                    "get_known_answers / update_ttl of the working tree on every run and the property's clauses are evaluated on "
-                   "the real answers. The full responder statement is false of the code (witness theorem D18_witness) and is kept "
-                   "as C10_responder_full with suppress_partial proved. Daemon level (responder side): `sim C10` histories are inside the "
+                   "the real answers. The full responder statement C10_responder_full is proved (responder_full) since the repair of "
+                   "D18 (it was refuted by a witness before). Daemon level (responder side): `sim C10` histories are inside the "
                    "responder model (handle_query with its fold over the known answers: exact correspondence) and the suppression "
                    "clause is evaluated on the real packets; the querier side (known answers listed in queries, per interface) is "
                    "covered by the client model's correspondence under C03-C05.",
         level_note="Trusted: Lean kernel; axioms propext, Classical.choice, Quot.sound only; hand-written model tied to the code by "
-                   "differential testing of this run's inputs. Partial: suppress_partial needs equal cache-flush bits and "
-                   "(addresses) equal interface - defect D18; handle_query / send_query_vec are not modelled here.",
-        partial=["suppress_partial: hypothesis mine.flush = other.flush and same interface for addresses (defect D18: "
-                 "suppressed_by_answer uses `matches`, which compares the cache-flush bit and the interface)"],
+                   "differential testing of this run's inputs.",
+        partial=["querier side: a record whose end was brought forward (flush, set_expire_sooner) is still listed from created+ttl (candidate C10-F1)"],
         assumptions=[
             "daemon level judged only in iterations that read exactly one datagram and made no API call",
             "times below 2^62 ms (no u64 wrap); TTLs are u32",
